@@ -305,6 +305,8 @@ type world struct {
 	writes  []storage.VerifWrite
 	capture bool
 	dead    bool
+	// table of an in-flight CREATE TABLE that the catalog check must tolerate
+	ignoreTable string
 }
 
 var (
@@ -334,7 +336,7 @@ func guard(f func() error) (err error) {
 	return f()
 }
 
-const worldFuel = 300000
+var worldFuel int64 = 40000 // page fetches allowed per operation (x4 for recovery / walker); longHistory raises it
 
 // newWorld creates a fresh database "d" in a fresh directory and selects it.
 func newWorld(c *lib.Ctx, opt worldOpt) *world {
@@ -684,6 +686,36 @@ func (w *world) checkAll(when string) bool {
 	return w.checkCatalog(when)
 }
 
+// checkAllExcept is checkAll that tolerates the half-created table of a CREATE
+// TABLE that was in flight when the process died (it may or may not exist).
+func (w *world) checkAllExcept(when, inFlight string) bool {
+	w.ignoreTable = inFlight
+	defer func() { w.ignoreTable = "" }()
+	return w.checkAll(when)
+}
+
+func mkdirAll(d string) {
+	if err := os.MkdirAll(d, 0755); err != nil {
+		panic(lib.HarnessError{Msg: err.Error()})
+	}
+}
+
+func writeFile(p string, b []byte) {
+	if err := os.WriteFile(p, b, 0644); err != nil {
+		panic(lib.HarnessError{Msg: err.Error()})
+	}
+}
+
+// chdir enters the world's directory and removes the previous world's.
+func (w *world) chdir(oldDir string) {
+	if err := os.Chdir(w.dir); err != nil {
+		panic(lib.HarnessError{Msg: err.Error()})
+	}
+	if oldDir != "" && oldDir != w.dir {
+		os.RemoveAll(oldDir)
+	}
+}
+
 func (w *world) checkCatalog(when string) bool {
 	rows, _, err := w.query("SELECT table_name, field_name, field_type FROM sys_schema")
 	if err != nil {
@@ -709,6 +741,9 @@ func (w *world) checkCatalog(when string) bool {
 	}
 	delete(got, "sys_pages")
 	delete(got, "sys_schema")
+	if w.ignoreTable != "" {
+		delete(got, w.ignoreTable)
+	}
 	if len(got) != 0 {
 		names := []string{}
 		for k := range got {
